@@ -227,6 +227,7 @@ def run_build_session(workdir, conf, argv, build_result, cpu_count=1, choices=No
         with log_mu:
             bs.events.append(('pstart', ctl.wid(), {
                 'args': args, 'cwd': cwd, 'env': None if env is None else dict(env),
+                'run': getattr(current, 'run', None),
                 'stdin': None if stdin is None else stdin.decode('utf-8', 'replace')}))
         exc = None
         try:
@@ -243,6 +244,17 @@ def run_build_session(workdir, conf, argv, build_result, cpu_count=1, choices=No
         if exc is not None:
             raise exc
         return result
+
+    # which run is being executed by this thread (for the oracle: the run that triggers a build)
+    current = threading.local()
+    orig_execute_run = getattr(rb_exec.Executor, 'execute_run', None)
+
+    def execute_run(self, run_id, *a, **kw):
+        current.run = run_key(run_id)
+        try:
+            return orig_execute_run(self, run_id, *a, **kw)
+        finally:
+            current.run = None
 
     def random_choice(seq):
         bs.choices_used += 1
@@ -301,6 +313,8 @@ def run_build_session(workdir, conf, argv, build_result, cpu_count=1, choices=No
                 if hasattr(mod, name):
                     lock_patches.append((mod, name, getattr(mod, name)))
     swt.run = run_wrapper
+    if orig_execute_run is not None:
+        rb_exec.Executor.execute_run = execute_run
     rb_main.ReBench.execute_experiment = exec_exp
     rb_conf.Configurator.get_runs = get_runs
     if parallel:
@@ -313,6 +327,8 @@ def run_build_session(workdir, conf, argv, build_result, cpu_count=1, choices=No
                                    random_choice=random_choice)
     finally:
         swt.run = orig_run
+        if orig_execute_run is not None:
+            rb_exec.Executor.execute_run = orig_execute_run
         rb_main.ReBench.execute_experiment = orig_exec_exp
         rb_conf.Configurator.get_runs = orig_get_runs
         if parallel:
